@@ -59,10 +59,10 @@ func (d Deriv) String() string {
 // acyclicFields: struct fields through which a projection is a strict descent in an acyclic
 // structure. yaml.Node.Alias is deliberately absent (an anchor can contain its own alias).
 var acyclicFields = map[string]string{
-	"gopkg.in/yaml.v3.Node.Content":           "children of a parsed YAML node form a tree",
-	"github.com/gopatchy/bkl.Document.Data":   "document data is a decoded tree",
+	"gopkg.in/yaml.v3.Node.Content":            "children of a parsed YAML node form a tree",
+	"github.com/gopatchy/bkl.Document.Data":    "document data is a decoded tree",
 	"github.com/gopatchy/bkl.Document.Parents": "parent links are only created from a child layer's documents to its parent layer's documents and from a patch to documents already merged (C08.parents rule checks the writers); acyclic unless the API is misused with the same *Document merged into itself",
-	"github.com/gopatchy/bkl.file.docs":       "documents of a loaded file",
+	"github.com/gopatchy/bkl.file.docs":        "documents of a loaded file",
 }
 
 type deriver struct {
